@@ -63,6 +63,7 @@ type Ceremony struct {
 	// MachinesRestartedFirst: the restored machines were stopped and reopened before the reinit operation.
 	MachinesRestartedFirst bool
 	SeedSetTwice           bool
+	EarlyBatch             bool
 	// ReinitFile: the reinitialisation file as written by the dkg_reinitializer binary (tool-chain worlds).
 	ReinitFile string
 }
@@ -410,7 +411,7 @@ func ReinitFrom(old *Ceremony, commSeed uint64, adapt func(*types.ReDKG) (*types
 			w.Close()
 			return nil, nil, err
 		}
-		if _, q := w.Run(policy, 4000); !q {
+		if q := runAfterReinit(w, ce, policy, commSeed); !q {
 			w.Close()
 			return nil, nil, fmt.Errorf("reinit did not reach quiescence")
 		}
@@ -441,7 +442,7 @@ func ReinitFrom(old *Ceremony, commSeed uint64, adapt func(*types.ReDKG) (*types
 		w.Close()
 		return nil, nil, err
 	}
-	if _, q := w.Run(policy, 4000); !q {
+	if q := runAfterReinit(w, ce, policy, commSeed); !q {
 		w.Close()
 		return nil, nil, fmt.Errorf("reinit did not reach quiescence")
 	}
@@ -451,6 +452,49 @@ func ReinitFrom(old *Ceremony, commSeed uint64, adapt func(*types.ReDKG) (*types
 // RestartRestoredMachines, when set (C20), decides per reinitialisation whether the freshly restored
 // machines are restarted before they see the reinit operation.
 var RestartRestoredMachines func(commSeed uint64) bool
+
+// LateReinitResults, when set (C20), decides per reinitialisation whether one operator is fast: his node
+// finishes the reinit operation and proposes a batch before the other operators have carried their reinit
+// results back from their machines.
+var LateReinitResults func(commSeed uint64) bool
+
+// runAfterReinit drives the world after the reinit message was posted.
+func runAfterReinit(w *world.World, ce *Ceremony, policy world.RunPolicy, commSeed uint64) bool {
+	if LateReinitResults == nil || !LateReinitResults(commSeed) {
+		_, q := w.Run(policy, 4000)
+		return q
+	}
+	fast := int(commSeed) % len(w.Nodes)
+	prev := w.OpFilter
+	// the slow operators: away with the reinit operation at their machines, not answering anything yet
+	w.OpFilter = func(nd *world.Node, op *types.Operation) bool {
+		if nd.Idx != fast {
+			return false
+		}
+		return prev == nil || prev(nd, op)
+	}
+	w.Run(policy, 4000)
+	if NodeState(w.Nodes[fast], ce.Round) == StIdle {
+		if err := w.ProposeSign(fast, ce.Round, map[string][]byte{"proposed-before-the-others-finished-reinit": []byte("early batch")}, nil); err == nil {
+			ce.EarlyBatch = true
+			w.Run(policy, 4000)
+		}
+	}
+	// they come back: the reinit result first, then whatever else is pending
+	w.OpFilter = func(nd *world.Node, op *types.Operation) bool {
+		if string(op.Type) != "reinit_dkg" {
+			for _, o := range w.PendingOps(nd) {
+				if string(o.Type) == "reinit_dkg" {
+					return false
+				}
+			}
+		}
+		return prev == nil || prev(nd, op)
+	}
+	_, q := w.Run(policy, 6000)
+	w.OpFilter = prev
+	return q
+}
 
 // RepeatSetSeed, when set (C20), decides per reinitialisation whether the operators enter their
 // mnemonics a second time on the restored machines.
